@@ -50,4 +50,12 @@ PROP_ASSUMPTIONS = {
         "validate_name and the recursion-balance assert of document() are modelled as ghost flags (deadBranch), printed by the driver if ever set",
         "lexer errors/indices as in C03; limit-error index reproduces Cursor::index() incl. its len-1 quirk at end of input",
     ],
+    "C06": [
+        "Model/Strings.lean decoder hand-written from cst/node_ext.rs; memchr/memmem searches modelled as list scans; tied by correspondence",
+        "spec side (SChar/valuesAll, specBlockStringValue) is our transcription of October 2021 §2.9.4",
+    ],
+    "C09": [
+        "Model/Strings.lean serializer hand-written from ast/serialize.rs (find/split_at loop modelled as per-character flatMap); tied by correspondence",
+        "block-form round trip is not proved (stated as block_roundtrip_statement)",
+    ],
 }
